@@ -1805,6 +1805,7 @@ func poolPtr(s *UDPSession) string { return fmt.Sprintf("0x%x", uintptr(unsafe.P
 
 func poolRunCloseScenario(t *testing.T, cfg poolCloseCfg, rep *vreport, rng *vrng, pump *poolPump, grace time.Duration) {
 	replay := map[string]any{"test": "TestVerifC15Close", "seed": vSeed(), "scenario": cfg}
+	nviol0 := len(rep.Violations)
 	base := poolGoroutines()
 	hub := newPoolHub(rng.u64(), newPoolSanitizer())
 	srvConn := hub.endpoint("srv")
@@ -2129,16 +2130,101 @@ func poolRunCloseScenario(t *testing.T, cfg poolCloseCfg, rep *vreport, rng *vrn
 	for _, s := range rest {
 		s.Close()
 	}
-	if extra := poolWaitGoroutines(base, 10*time.Second); len(extra) > 0 {
-		t.Fatalf("scenario %s: could not clean up: %v", cfg.Name, extra)
+	// what a reported leak left behind cannot be cleaned up (that is the finding): the next scenario
+	// takes its own baseline; anything else that stays is trouble of the harness
+	reported := len(rep.Violations) > nviol0
+	cleanGrace := 10 * time.Second
+	if reported {
+		cleanGrace = time.Second
+	}
+	if extra := poolWaitGoroutines(base, cleanGrace); len(extra) > 0 {
+		if !reported {
+			t.Fatalf("scenario %s: could not clean up: %v", cfg.Name, extra)
+		}
+		t.Logf("scenario %s: the leaked goroutines stay: %v", cfg.Name, extra)
 	}
 	if pump != nil {
-		if n := pump.waitZero(10 * time.Second); n != 0 {
-			t.Fatalf("scenario %s: could not clean up: %d callbacks still scheduled", cfg.Name, n)
+		if n := pump.waitZero(cleanGrace); n != 0 {
+			if !reported {
+				t.Fatalf("scenario %s: could not clean up: %d callbacks still scheduled", cfg.Name, n)
+			}
+			t.Logf("scenario %s: %d leaked callbacks stay scheduled", cfg.Name, n)
 		}
 	}
 	rep.Cases++
 	if cfg.Point != "idle" {
+		rep.Nontrivial++
+	}
+}
+
+// a socket whose first WriteTo blocks until the gate opens and which then fails every write
+type poolGateConn struct {
+	writes  atomic.Int32
+	entered chan struct{}
+	gate    chan struct{}
+	closed  chan struct{}
+	once    sync.Once
+}
+
+func newPoolGateConn() *poolGateConn {
+	return &poolGateConn{entered: make(chan struct{}), gate: make(chan struct{}), closed: make(chan struct{})}
+}
+func (c *poolGateConn) ReadFrom(p []byte) (int, net.Addr, error) {
+	<-c.closed
+	return 0, nil, net.ErrClosed
+}
+func (c *poolGateConn) WriteTo(p []byte, addr net.Addr) (int, error) {
+	if c.writes.Add(1) == 1 {
+		close(c.entered)
+		<-c.gate
+	}
+	return 0, fmt.Errorf("sendto: network is unreachable")
+}
+func (c *poolGateConn) Close() error                       { c.once.Do(func() { close(c.closed) }); return nil }
+func (c *poolGateConn) LocalAddr() net.Addr                { return poolAddr{"gate"} }
+func (c *poolGateConn) SetDeadline(t time.Time) error      { return nil }
+func (c *poolGateConn) SetReadDeadline(t time.Time) error  { return nil }
+func (c *poolGateConn) SetWriteDeadline(t time.Time) error { return nil }
+
+// poolRunWriteErrorClose: sessions whose socket fails while packets are still queued for
+// post-processing are closed; then the transport is closed.  Every goroutine of theirs ends.
+func poolRunWriteErrorClose(t *testing.T, rep *vreport, rng *vrng, n int, grace time.Duration) {
+	replay := map[string]any{"test": "TestVerifC15Close", "seed": vSeed(), "scenario": "write-error-with-queue"}
+	base := poolGoroutines()
+	ready := 0
+	for i := 0; i < n; i++ {
+		conn := newPoolGateConn()
+		sess, err := NewConn3(uint32(9000+i), poolAddr{"nowhere"}, poolBlock(poolPickS(rng, "none", "aes")), 0, 0, conn)
+		if err != nil {
+			t.Fatal(err)
+		}
+		sess.SetNoDelay(1, 10, 2, 1)
+		sess.SetWriteDelay(false)
+		sess.Write([]byte("first"))
+		select {
+		case <-conn.entered:
+		case <-time.After(5 * time.Second):
+			t.Fatalf("write-error scenario: the first packet never reached the socket")
+		}
+		for k := 0; k < 2+rng.intn(4); k++ {
+			sess.SetWriteDeadline(time.Now().Add(time.Second))
+			sess.Write([]byte("more"))
+		}
+		if len(sess.chPostProcessing) > 0 {
+			ready++
+		}
+		sess.Close()
+		close(conn.gate)
+		conn.Close()
+	}
+	rep.Distribution["close_write_error_sessions_with_queue"] += ready
+	rep.Monitors["close_goroutines"]++
+	extra := poolWaitGoroutines(base, grace)
+	for entry, k := range extra {
+		rep.violate("close-leak:"+entry, fmt.Sprintf("scenario write-error-with-queue: %d %s goroutine(s) of %d sessions closed after a socket write error with packets still queued are alive %v after sessions and transports were closed", k, entry, n, grace), replay)
+	}
+	rep.Cases++
+	if ready > 0 {
 		rep.Nontrivial++
 	}
 }
@@ -2239,6 +2325,11 @@ func TestVerifC15Close(t *testing.T) {
 	for _, c := range scen {
 		poolRunCloseScenario(t, c, rep, rng, pump, grace)
 	}
+	nw := 16
+	if vThorough() {
+		nw = 64
+	}
+	poolRunWriteErrorClose(t, rep, rng, nw, grace)
 	// the same with the real scheduler (goroutines only: its queue cannot be inspected)
 	SystemTimedSched = saved
 	poolRunCloseScenario(t, poolCloseCfg{Name: "real-sched/mid-transfer", Point: "mid-transfer", Order: perms[rng.intn(len(perms))], Own: true, Clients: 2, Cipher: "aes", RealSched: true}, rep, rng, nil, grace)
